@@ -19,7 +19,7 @@ NEEDS_PARTNER = True
 
 def gen_plan(rng, tier):
     nobs = rng.randint(1, 4)
-    names = [rng.choice(["A|r1", "ens_b", "H105|r005", "x", "B2|rep2", "Ümlaut|r1"]) for _ in range(nobs)]
+    names = [rng.choice(["A|r1", "A|r2", "ens_b", "H105|r005", "H105|r006", "x", "B2|rep2", "Ümlaut|r1"]) for _ in range(nobs)]
     if nobs > 1 and rng.random() < 0.6:
         names[1] = names[0]            # two observables of one chain
     specs = []
@@ -30,6 +30,9 @@ def gen_plan(rng, tier):
     for s in specs[1:]:
         if s["name"] == specs[0]["name"] and rng.random() < 0.8:
             s["n"], s["idl"] = specs[0]["n"], specs[0]["idl"]
+    if rng.random() < 0.5:
+        for s in specs[1:]:
+            s["n"], s["idl"] = specs[0]["n"], specs[0]["idl"]       # different chains of equal length
     for s in specs:
         if rng.random() < 0.25:
             s["value_shift"] = rng.choice([1e-3, -0.05, 0.5])     # central value != mean of the samples (as after importing resampled non-linear functions)
@@ -169,6 +172,11 @@ def execute(plan, ctx):
                 continue
             key = (name, n, ns)
             ctx.compared += 1
+            # seeded by the NAME: another chain name of the same length must not get the same random numbers
+            for (nm2, n2, ns2), R2 in tables.items():
+                if nm2 != name and n2 == n and ns2 == ns and ns * n >= 16 and np.array_equal(R2, R):
+                    ctx.violation("c13.seeding", "export_bootstrap", "name_dependence", "chains %r and %r (n=%d, %d samples) were resampled with identical default random numbers" % (nm2, name, n, ns))
+                    break
             if key in tables:
                 if not np.array_equal(tables[key], R):
                     ctx.violation("c13.seeding", "export_bootstrap", "chain_consistent", "two default exports for chain %r (n=%d, %d samples) used different random numbers" % (name, n, ns))
@@ -259,10 +267,14 @@ def imp(ctx, pe, o, x, b, name, R, scale, disc):
         return
     cond = sv[0] / sv[-1]
     R0 = R.copy()
+    b0 = b.copy()
     try:
         back = pe.import_bootstrap(b, name, R)
     except Exception as e:
         ctx.violation("c13.bootstrap_import", "import_bootstrap", "raised", "%s: %s" % (type(e).__name__, str(e)[:100]))
+        return
+    if not np.array_equal(b, b0):
+        ctx.violation("c13.bootstrap_import", "import_bootstrap", "samples_mutated", "the array of bootstrap samples handed to the import was modified (a second import of it gives something else)")
         return
     if not np.array_equal(R, R0):
         ctx.violation("c13.bootstrap_import", "import_bootstrap", "table_mutated", "the supplied random-number table was modified by the import")
